@@ -58,7 +58,7 @@ TRUSTED_EXTRA = ["MolecularSimilarity.test_same enters the model as an oracle (i
 
 
 def regenerate(ctx: Ctx) -> None:
-    ctx.gen_status.update(ktn_cfg.regenerate())
+    ctx.gen_status.update(ktn_cfg.regenerate(["add_minimum", "add_ts", "__init__", "reset_network"]))
     ctx.gen_status.update(sim_tr.regenerate())
 
 
